@@ -220,7 +220,7 @@ impl Engine for TwinSim {
             }
         };
         if rng.chance(2, 3) {
-            let ccfg = Cfg { property: (*rng.pick(&["C01", "C02", "C11", "C17", "C05"])).to_string(), tier: cfg.tier, seed: cfg.seed };
+            let ccfg = Cfg { property: (*rng.pick(&["C01", "C02", "C11", "C17", "C05", "C19", "C19"])).to_string(), tier: cfg.tier, seed: cfg.seed };
             let main = chaingen::ChainSim.generate(rng, &ccfg);
             let mut noise = chaingen::ChainSim.generate(rng, &ccfg);
             // the noise instance is configured differently (another address prefix)
